@@ -241,7 +241,10 @@ fn convert_case(s: &Spec, cutoff: usize, seed: u64, state: Vec<bool>, beta: f64,
 #[derive(Clone, Copy)]
 struct Opts {
     rvb: bool,
-    hb: bool,
+    /// 0 = Metropolis on both; 1 = heat-bath set on the Ising sampler only (into_qmc does not carry the
+    /// option: the converted sampler sweeps with Metropolis); 2 = heat-bath on both
+    /// (`set_enable_heatbath(true)` on the Ising sampler, `set_do_heatbath(true)` on its conversion)
+    hb: u8,
 }
 
 /// Returns the observation token: `same` or `diverged@<step>:<what>`
@@ -250,20 +253,24 @@ fn lockstep_case(s: &Spec, cutoff: usize, seed: u64, state: Vec<bool>, beta: f64
     if opts.rvb {
         g.set_run_rvb(true);
     }
-    if opts.hb {
+    if opts.hb >= 1 {
         g.set_enable_heatbath(true);
     }
     for _ in 0..kpre {
         g.timestep(beta);
     }
     let gc = g.clone();
+    let cutoff_at_conversion = g.get_cutoff();
     let mut q = match catch(move || gc.into_qmc()) {
         Ok(q) => q,
         Err(p) => {
-            emit(true, &format!("lockstep {} {} {} {} {} {} {} {} panic", spec_tok(s), cutoff, rat(beta), seed, kpre, kpost, opts.rvb as u8, opts.hb as u8), "1 ? ?", Some(Err(format!("into_qmc panicked: {}", p))));
+            emit(true, &format!("lockstep {} {} {} {} {} {} {} {} panic", spec_tok(s), cutoff, rat(beta), seed, kpre, kpost, opts.rvb as u8, opts.hb), "1 ? ?", Some(Err(format!("into_qmc panicked: {}", p))));
             return false;
         }
     };
+    if opts.hb == 2 {
+        q.set_do_heatbath(true);
+    }
     let gate = q.should_do_cluster_update();
     let mut observed = "same".to_string();
     let (mut sum_g, mut sum_q) = (0usize, 0usize);
@@ -294,6 +301,12 @@ fn lockstep_case(s: &Spec, cutoff: usize, seed: u64, state: Vec<bool>, beta: f64
         }
     }
     let same = observed == "same";
+    if kpost > 0 && g.get_cutoff() > cutoff_at_conversion {
+        stat(&format!("lockstep{}_hb{}_runs_with_growth_after_conversion", tag, opts.hb), 1);
+    }
+    if sum_g > 0 {
+        stat(&format!("lockstep{}_hb{}_runs_with_operators", tag, opts.hb), 1);
+    }
     // energies through the public accessor on the two averages
     let (eg, eq) = if kpost > 0 {
         (
@@ -322,7 +335,7 @@ fn lockstep_case(s: &Spec, cutoff: usize, seed: u64, state: Vec<bool>, beta: f64
     let ediff = if same { format!("~{:e}", eg - eq) } else { "~0".to_string() };
     emit(
         kpost > 0,
-        &format!("lockstep{} {} {} {} {} {} {} {} {} {}", tag, spec_tok(s), cutoff, rat(beta), seed, kpre, kpost, opts.rvb as u8, opts.hb as u8, observed),
+        &format!("lockstep{} {} {} {} {} {} {} {} {} {}", tag, spec_tok(s), cutoff, rat(beta), seed, kpre, kpost, opts.rvb as u8, opts.hb, observed),
         &format!("1 {} {}", gate as u8, ediff),
         oracle,
     );
@@ -434,6 +447,7 @@ fn main() {
     if a.mode == "lockstep" || a.mode == "all" {
         let reps = if a.thorough { 2500 } else { 80 };
         let (mut hz, mut hz_same, mut hn, mut hn_same, mut op, mut op_same) = (0, 0, 0, 0, 0, 0);
+        let (mut hb2, mut hb2_same, mut g0, mut g0_same) = (0, 0, 0, 0);
         for rep in 0..reps {
             let hk = if rep % 3 == 2 { 1 + gen.below(2) } else { 0 };
             let s = gen_spec(&mut gen, hk);
@@ -449,18 +463,37 @@ fn main() {
             let seed = gen.next();
             let state_for_diag = state.clone();
             if hk == 0 {
-                let same = lockstep_case(&s, cutoff, seed, state.clone(), beta, kpre, kpost, Opts { rvb: false, hb: false }, true, "");
+                let same = lockstep_case(&s, cutoff, seed, state.clone(), beta, kpre, kpost, Opts { rvb: false, hb: 0 }, true, "");
                 hz += 1;
                 hz_same += same as usize;
+                // heat-bath sweeps on BOTH samplers (the option is set on the conversion by hand): same oracle
+                let c_small = 1 + gen.below(3) as usize; // growth has to happen after the conversion
+                let kp = if rep % 2 == 0 { 0 } else { (rep % 5) as usize };
+                let same = lockstep_case(&s, c_small, seed ^ 0xb0, state.clone(), beta, kp, kpost, Opts { rvb: false, hb: 2 }, true, "-hb");
+                hb2 += 1;
+                hb2_same += same as usize;
+                // transverse field exactly 0 (h = 0): the Ising sampler still flips the whole string with
+                // probability 1/2; couplings and beta large enough that the string holds operators
+                let mut s0 = s.clone();
+                s0.gamma = 0.0;
+                s0.edges.iter_mut().for_each(|e| {
+                    if e.1.abs() < 1.0 {
+                        e.1 = if e.1 < 0.0 { -1.0 } else { 1.0 };
+                    }
+                });
+                let b0 = *gen.pick(&[2.0, 4.0]);
+                let same = lockstep_case(&s0, cutoff, seed ^ 0x60, state.clone(), b0, kpre, kpost, Opts { rvb: false, hb: 0 }, true, "-g0");
+                g0 += 1;
+                g0_same += same as usize;
                 if rep % 8 == 0 {
                     // options the conversion does not carry (RVB needs equal |J|: not exercised here; heat-bath)
-                    let same = lockstep_case(&s, cutoff, seed, state, beta, kpre, kpost, Opts { rvb: false, hb: true }, false, "-opts");
+                    let same = lockstep_case(&s, cutoff, seed, state, beta, kpre, kpost, Opts { rvb: false, hb: 1 }, false, "-opts");
                     op += 1;
                     op_same += same as usize;
                 }
             } else {
                 // h != 0: observation recorded, judged only on the recorded witness below
-                let same = lockstep_case(&s, cutoff, seed, state.clone(), beta, kpre, kpost, Opts { rvb: false, hb: false }, false, "-h");
+                let same = lockstep_case(&s, cutoff, seed, state.clone(), beta, kpre, kpost, Opts { rvb: false, hb: 0 }, false, "-h");
                 hn += 1;
                 hn_same += same as usize;
             }
@@ -475,11 +508,15 @@ fn main() {
         stat("lockstep_h_nonzero_same", hn_same);
         stat("lockstep_heatbath_option_runs", op);
         stat("lockstep_heatbath_option_same", op_same);
+        stat("lockstep_heatbath_both_runs", hb2);
+        stat("lockstep_heatbath_both_same", hb2_same);
+        stat("lockstep_gamma_zero_runs", g0);
+        stat("lockstep_gamma_zero_same", g0_same);
         // F4 witness: fixed input, h != 0
         let w = Spec { edges: vec![((0, 1), 1.0)], gamma: 1.0, h: 0.5, nv: 2 };
-        lockstep_case(&w, 2, 7, vec![false, false], 1.0, 0, 20, Opts { rvb: false, hb: false }, true, "");
+        lockstep_case(&w, 2, 7, vec![false, false], 1.0, 0, 20, Opts { rvb: false, hb: 0 }, true, "");
         // convert_test of the crate, as a fixed case (3-site ring, h = 0)
         let t = Spec { edges: vec![((0, 1), 1.0), ((1, 2), 1.0), ((2, 0), 1.0)], gamma: 1.0, h: 0.0, nv: 3 };
-        lockstep_case(&t, 3, 1234, vec![false, false, false], 1.0, 10, 20, Opts { rvb: false, hb: false }, true, "");
+        lockstep_case(&t, 3, 1234, vec![false, false, false], 1.0, 10, 20, Opts { rvb: false, hb: 0 }, true, "");
     }
 }
